@@ -19,7 +19,7 @@ LEVEL_TEXT = (
     'overwrites a non-empty local queue and hands processed work back; its join no longer waits for '
     'the control-flow forwarder. The HTTP/JS layer end to end and ui/app.js are not analysed.')
 
-FLOORS = {'C19-R1': 7, 'C19-R2': 4, 'C19-R3': 6, 'C19-R4': 3, 'C19-R5': 4, 'C19-R6': 3, 'C03-R2': 2}
+FLOORS = {'C19-R1': 7, 'C19-R2': 4, 'C19-R3': 6, 'C19-R4': 3, 'C19-R5': 4, 'C19-R6': 3, 'C03-R2': 2, 'C01-R4': 4}
 
 STATES = 'checker::explorer::states'
 STATUS = 'checker::explorer::status'
@@ -467,3 +467,10 @@ def run(ctx):
     ctx.doc('C19-R6', 'Model::next_steps pairs every action with next_state(last_state, that action)')
     with ctx.rule('C19-R6', 'next_steps'):
         r6_next_steps(ctx, F)
+    # "once told to run to completion, finishes like BFS": every job the on-demand worker holds is evaluated and
+    # expanded - the block takes its jobs out of the queue without losing the rest
+    import c01
+    ctx.doc('C01-R4', 'on-demand check_block: from the dequeue every path to the next dequeue / return passes '
+                      'Model::actions or a sanctioned exit; the local batch is exactly what was drained')
+    with ctx.rule('C01-R4', 'OD'):
+        c01.r4_expand_or_sanctioned(ctx, _CB(F, 'OD'))
